@@ -20,6 +20,7 @@ PARTS += ["chordfns_rotate"]
 PARTS += ["segindex"]
 PARTS += ["utilint"]      # mir_eval/util.py interval pre-processing -> MirGen/UtilInt.lean (C13)
 PARTS += ["multipitch"]   # mir_eval/multipitch.py count functions, resampling, metrics -> MirGen/Multipitch.lean (C18)
+PARTS += ["evglue"]       # event-metric glue: util.match_events / _fast_hit_windows, onset / beat F, segment.detection / deviation -> MirGen/EvGlue.lean (C04)
 
 
 def write_if_changed(path, text):
